@@ -4,18 +4,22 @@
    tables: gen/Base64_gen.v (regenerated from the code on every run).
    Vocabulary: enc_spec = RFC 4648 section 4 encoding written from the RFC over the literal
    alphabet; strip_ws = input without the six white space bytes the decoder skips by design;
-   all_bytes_ok = every element < 256; dvalid / evalid = reachable decoder / encoder contexts. *)
+   all_bytes_ok = every element < 256; dvalid / evalid = reachable decoder / encoder contexts.
+   Two decoders are modelled, selected by the first (boolean) argument of decode_update /
+   b64_decode / decode_chunks / basic_decode: false = the bundled lib/base64.cc of /repo HEAD,
+   true = the libnettle 3.8 decoder this build links (same code, older padding test).
+   Statements quantified over k hold for both. *)
 Require Import SquidV.Bytes SquidV.B64Model SquidV.B64Proofs.
 Require Import SquidV.gen.Base64_gen.
 Local Open Scope N_scope.
 
 (* ---- "Decoding the base64 encoding of any byte string returns it exactly" ---- *)
-Theorem C36_decode_encode_roundtrip : forall x, all_bytes_ok x ->
-  b64_decode (b64_encode x) = Some x.
+Theorem C36_decode_encode_roundtrip : forall k x, all_bytes_ok x ->
+  b64_decode k (b64_encode x) = Some x.
 Proof. exact decode_encode_roundtrip. Qed.
 
-Theorem C36_decode_encode_raw_roundtrip : forall x, all_bytes_ok x ->
-  b64_decode (encode_raw x) = Some x.
+Theorem C36_decode_encode_raw_roundtrip : forall k x, all_bytes_ok x ->
+  b64_decode k (encode_raw x) = Some x.
 Proof. exact decode_encode_raw_roundtrip. Qed.
 
 (* init; update on every chunk; final  ==  the RFC encoding of the concatenation, for every cutting *)
@@ -27,22 +31,22 @@ Theorem C36_encode_raw_is_rfc4648 : forall x, all_bytes_ok x -> encode_raw x = e
 Proof. exact encode_raw_spec. Qed.
 
 (* any cutting into update() calls of any white-space-interleaved encoding of x decodes to x *)
-Theorem C36_wellformed_decodes_any_segmentation_and_whitespace : forall chunks x,
+Theorem C36_wellformed_decodes_any_segmentation_and_whitespace : forall k chunks x,
   all_bytes_ok x -> all_bytes_ok (concat chunks) -> strip_ws (concat chunks) = enc_spec x ->
-  decode_chunks dctx_init chunks [] = DOk x.
+  decode_chunks k dctx_init chunks [] = DOk x.
 Proof. exact decode_wellformed_any_segmentation. Qed.
 
 (* the decoder's verdict and output (also the bytes stored before a rejection) depend only on
    the concatenation of the chunks *)
-Theorem C36_decode_outcome_independent_of_segmentation : forall chunks ctx acc, dvalid ctx ->
-  decode_chunks ctx chunks acc = dres_of acc (decode_update ctx (concat chunks)).
+Theorem C36_decode_outcome_independent_of_segmentation : forall k chunks ctx acc, dvalid ctx ->
+  decode_chunks k ctx chunks acc = dres_of acc (decode_update k ctx (concat chunks)).
 Proof. exact decode_chunks_concat. Qed.
 
 (* ---- "... without writing beyond the output size the API promises" ---- *)
 (* for EVERY input, accepted or rejected, from every reachable context: the bytes stored are at
    most BASE64_DECODE_LENGTH(src_length), the context stays valid, the abort() arm is unreachable *)
-Theorem C36_decode_update_write_bound : forall ctx src, dvalid ctx ->
-  let '(ctx', u) := decode_update ctx src in
+Theorem C36_decode_update_write_bound : forall k ctx src, dvalid ctx ->
+  let '(ctx', u) := decode_update k ctx src in
   dvalid ctx' /\ (forall w, u <> UAbort w) /\ lenN (uwritten u) <= BASE64_DECODE_LENGTH (lenN src).
 Proof. exact decode_update_bounded. Qed.
 
@@ -51,25 +55,34 @@ Theorem C36_encode_update_within_promised_length : forall ctx src, evalid ctx ->
 Proof. exact encode_update_length. Qed.
 
 (* ---- "Malformed base64 is rejected" ---- *)
-(* the accepted language, exactly: whatever is accepted is the RFC encoding of the output, or --
-   the one quirk of the code -- that encoding of whole quanta followed by "A===" *)
-Theorem C36_accepted_language_exact : forall src out, all_bytes_ok src -> b64_decode src = Some out ->
-  strip_ws src = enc_spec out \/ (strip_ws src = enc_spec out ++ A3 /\ lenN out mod 3 = 0).
-Proof. exact accepted_language_exact. Qed.
+(* bundled lib/base64.cc, full strength: whatever is accepted is (white space aside) the RFC 4648
+   encoding of the output; equivalently everything that is not such an encoding is refused *)
+Theorem C36_malformed_rejected : forall src out, all_bytes_ok src -> b64_decode false src = Some out ->
+  strip_ws src = enc_spec out.
+Proof. exact bundled_malformed_rejected. Qed.
 
-(* full statement "accepted => canonical" is FALSE for the code as it is: witness "A===" *)
-Theorem C36_strict_rejection_refuted :
-  exists src out, all_bytes_ok src /\ b64_decode src = Some out /\ strip_ws src <> enc_spec out.
-Proof. exact strict_rejection_refuted. Qed.
+Theorem C36_noncanonical_input_refused : forall src, all_bytes_ok src ->
+  (forall out, strip_ws src <> enc_spec out) -> b64_decode false src = None.
+Proof. exact bundled_rejects_noncanonical. Qed.
 
-(* ... and holds for every input that does not end in the "A===" quirk (missing: exactly that) *)
-Theorem C36_malformed_rejected_partial : forall src out, all_bytes_ok src -> b64_decode src = Some out ->
-  (forall o, strip_ws src <> enc_spec o ++ A3) -> strip_ws src = enc_spec out.
-Proof. exact malformed_rejected_partial. Qed.
-
-Theorem C36_invalid_character_rejected : forall c src, In c src -> dec_lookup c = (-1)%Z ->
-  b64_decode src = None.
+Theorem C36_invalid_character_rejected : forall k c src, In c src -> dec_lookup c = (-1)%Z ->
+  b64_decode k src = None.
 Proof. exact invalid_character_rejected. Qed.
+
+(* the libnettle 3.8 decoder (the one linked here): exact accepted language with its one quirk ... *)
+Theorem C36_nettle_accepted_language_exact : forall src out, all_bytes_ok src -> b64_decode true src = Some out ->
+  strip_ws src = enc_spec out \/ (strip_ws src = enc_spec out ++ A3 /\ lenN out mod 3 = 0).
+Proof. exact nettle_accepted_language. Qed.
+
+(* ... for which "accepted => canonical" is FALSE: witness "A===" (the remaining known finding) ... *)
+Theorem C36_nettle_strict_rejection_refuted :
+  exists src out, all_bytes_ok src /\ b64_decode true src = Some out /\ strip_ws src <> enc_spec out.
+Proof. exact nettle_strict_rejection_refuted. Qed.
+
+(* ... and holds for every input that does not end in exactly that quirk *)
+Theorem C36_nettle_malformed_rejected_partial : forall src out, all_bytes_ok src -> b64_decode true src = Some out ->
+  (forall o, strip_ws src <> enc_spec o ++ A3) -> strip_ws src = enc_spec out.
+Proof. exact nettle_malformed_rejected_partial. Qed.
 
 (* ---- "Basic credentials decode to the user name before the first colon and the password after it" ---- *)
 Theorem C36_basic_split_first_colon : forall cs u p, ~ In 58 u ->
@@ -81,23 +94,25 @@ Theorem C36_basic_split_no_colon : forall cs ct, ~ In 58 ct ->
   basic_split cs ct = (if cs then ct else map xtolower ct, None).
 Proof. exact basic_split_no_colon. Qed.
 
-(* whole path through decodeCleartext + split, for "<scheme> <space> base64(user:password) [LF ...]".
-   _partial: restricted to credentials without NUL (CR/LF are refused by design; the user name is
-   lower-cased unless casesensitive is on; an empty password is dropped by decode()) *)
-Theorem C36_basic_credentials_partial : forall cs scheme ws u p tail,
+(* whole path through decodeCleartext + split for "<scheme> <space> base64(user:password) [LF ...]",
+   for ALL user names and passwords: refused when they contain NUL, CR or LF, otherwise exactly
+   (bytes before the first colon [lower-cased unless casesensitive], bytes after it
+   [an empty password is dropped by decode()]); for either linked decoder *)
+Theorem C36_basic_credentials : forall k cs scheme ws u p tail,
   forallb xisgraph scheme = true -> ws <> [] -> forallb xisspace ws = true ->
-  forallb clean_cred (u ++ 58 :: p) = true -> ~ In 58 u ->
+  all_bytes_ok (u ++ 58 :: p) -> ~ In 58 u ->
   (tail = [] \/ exists t, tail = 10 :: t) ->
-  basic_decode cs (scheme ++ ws ++ enc_spec (u ++ 58 :: p) ++ tail) =
-  Some (if cs then u else map xtolower u, match p with [] => None | _ => Some p end).
-Proof. exact basic_decode_wellformed. Qed.
+  basic_decode k cs (scheme ++ ws ++ enc_spec (u ++ 58 :: p) ++ tail) =
+  if existsb cred_refused (u ++ 58 :: p) then None
+  else Some (if cs then u else map xtolower u, match p with [] => None | _ => Some p end).
+Proof. exact basic_credentials. Qed.
 
-(* without the NUL restriction the statement is FALSE for the code as it is:
-   "Basic " ++ base64("user\0x:pass") yields user "user" and no password *)
-Theorem C36_basic_split_refuted_by_nul :
-  exists u p, ~ In 58 u /\ p <> [] /\ all_bytes_ok (u ++ 58 :: p) /\
-    basic_decode true ([66; 97; 115; 105; 99; 32] ++ enc_spec (u ++ 58 :: p)) = Some ([117; 115; 101; 114], None).
-Proof. exact basic_split_refuted_by_nul. Qed.
+Theorem C36_basic_nul_refused : forall k cs scheme ws clear tail,
+  forallb xisgraph scheme = true -> ws <> [] -> forallb xisspace ws = true ->
+  all_bytes_ok clear -> In 0 clear ->
+  (tail = [] \/ exists t, tail = 10 :: t) ->
+  basic_decode k cs (scheme ++ ws ++ enc_spec clear ++ tail) = None.
+Proof. exact basic_nul_refused. Qed.
 
 (* ---- the regenerated tables are what the model and the specification assume ---- *)
 Theorem C36_nettle_tables_equal_bundled :
@@ -119,7 +134,7 @@ Proof. exact header_constants_match_model. Qed.
 (* ---- non-vacuity: the hypotheses are met by concrete non-trivial values ---- *)
 Example C36_ex_bytes_ok : all_bytes_ok [65; 108; 97; 100; 0; 255; 58].
 Proof. vm_compute. reflexivity. Qed.
-Example C36_ex_roundtrip : b64_decode (b64_encode [65; 108; 97; 100; 0; 255; 58]) = Some [65; 108; 97; 100; 0; 255; 58].
+Example C36_ex_roundtrip : b64_decode false (b64_encode [65; 108; 97; 100; 0; 255; 58]) = Some [65; 108; 97; 100; 0; 255; 58].
 Proof. vm_compute. reflexivity. Qed.
 Example C36_ex_dvalid_init : dvalid dctx_init.
 Proof. exact dvalid_init. Qed.
@@ -127,28 +142,38 @@ Example C36_ex_evalid_init : evalid ectx_init.
 Proof. left. reflexivity. Qed.
 Example C36_ex_ws_segmented :   (* "QU" | " JD\n" | "RA==" *)
   strip_ws (concat [[81; 85]; [32; 74; 68; 10]; [82; 65; 61; 61]]) = enc_spec [65; 66; 67; 68] /\
-  decode_chunks dctx_init [[81; 85]; [32; 74; 68; 10]; [82; 65; 61; 61]] [] = DOk [65; 66; 67; 68].
+  decode_chunks false dctx_init [[81; 85]; [32; 74; 68; 10]; [82; 65; 61; 61]] [] = DOk [65; 66; 67; 68].
 Proof. vm_compute. split; reflexivity. Qed.
-Example C36_ex_accepted : b64_decode [81; 85; 74; 68] = Some [65; 66; 67].
-Proof. vm_compute. reflexivity. Qed.
+Example C36_ex_accepted : b64_decode false [81; 85; 74; 68] = Some [65; 66; 67] /\ b64_decode true [81; 85; 74; 68] = Some [65; 66; 67].
+Proof. vm_compute. split; reflexivity. Qed.
 Example C36_ex_not_quirk : forall o, [81; 85; 74; 68] <> enc_spec o ++ A3.
 Proof. exact example_no_A3_suffix. Qed.
-Example C36_ex_rejected_leftover_bits : b64_decode [81; 86; 61; 61] = None.  (* "QV==" *)
+Example C36_ex_bundled_refuses_quirk : b64_decode false A3 = None /\ b64_decode false ([81; 85; 74; 68] ++ A3) = None.
+Proof. exact bundled_refuses_A3. Qed.
+Example C36_ex_nettle_basic_quirk :   (* "Basic A===" through decodeCleartext: nettle linked -> empty credentials; bundled -> refused *)
+  basic_decode true true ([66; 97; 115; 105; 99; 32] ++ A3) = Some ([], None) /\
+  basic_decode false true ([66; 97; 115; 105; 99; 32] ++ A3) = None.
+Proof. exact nettle_basic_accepts_A3. Qed.
+Example C36_ex_rejected_leftover_bits : b64_decode false [81; 86; 61; 61] = None.  (* "QV==" *)
 Proof. vm_compute. reflexivity. Qed.
-Example C36_ex_rejected_data_after_pad : b64_decode [81; 81; 61; 61; 81; 85; 74; 68] = None.
+Example C36_ex_rejected_data_after_pad : b64_decode false [81; 81; 61; 61; 81; 85; 74; 68] = None.
 Proof. vm_compute. reflexivity. Qed.
-Example C36_ex_invalid_char : dec_lookup 33 = (-1)%Z /\ b64_decode [81; 85; 33; 68] = None.
+Example C36_ex_invalid_char : dec_lookup 33 = (-1)%Z /\ b64_decode false [81; 85; 33; 68] = None.
 Proof. vm_compute. split; reflexivity. Qed.
 Example C36_ex_basic_hyps :
-  forallb clean_cred ([65; 108; 97; 100; 100; 105; 110] ++ 58 :: [111; 112; 101; 110]) = true /\
-  ~ In 58 [65; 108; 97; 100; 100; 105; 110].
-Proof. exact example_clean_cred. Qed.
+  all_bytes_ok ([65; 108; 97; 100; 100; 105; 110] ++ 58 :: [111; 112; 101; 110]) /\
+  ~ In 58 [65; 108; 97; 100; 100; 105; 110] /\
+  existsb cred_refused ([65; 108; 97; 100; 100; 105; 110] ++ 58 :: [111; 112; 101; 110]) = false.
+Proof. exact example_cred_hyps. Qed.
 Example C36_ex_basic :  (* "Basic QWxhZGRpbjpvcGVuIHNlc2FtZQ==" -> ("Aladdin", "open sesame"); case-insensitive: "aladdin" *)
-  basic_decode true [66;97;115;105;99;32;81;87;120;104;90;71;82;112;98;106;112;118;99;71;86;117;73;72;78;108;99;50;70;116;90;81;61;61]
+  basic_decode true true [66;97;115;105;99;32;81;87;120;104;90;71;82;112;98;106;112;118;99;71;86;117;73;72;78;108;99;50;70;116;90;81;61;61]
     = Some ([65;108;97;100;100;105;110], Some [111;112;101;110;32;115;101;115;97;109;101]) /\
-  basic_decode false [66;97;115;105;99;32;81;87;120;104;90;71;82;112;98;106;112;118;99;71;86;117;73;72;78;108;99;50;70;116;90;81;61;61]
+  basic_decode true false [66;97;115;105;99;32;81;87;120;104;90;71;82;112;98;106;112;118;99;71;86;117;73;72;78;108;99;50;70;116;90;81;61;61]
     = Some ([97;108;97;100;100;105;110], Some [111;112;101;110;32;115;101;115;97;109;101]).
 Proof. vm_compute. split; reflexivity. Qed.
+Example C36_ex_basic_nul :  (* "Basic dXNlcgB4OnBhc3M=" = "user\0x:pass" is refused now *)
+  basic_decode true true [66;97;115;105;99;32;100;88;78;108;99;103;66;52;79;110;66;104;99;51;77;61] = None.
+Proof. vm_compute. reflexivity. Qed.
 
 Print Assumptions C36_decode_encode_roundtrip.
 Print Assumptions C36_decode_encode_raw_roundtrip.
@@ -158,13 +183,15 @@ Print Assumptions C36_wellformed_decodes_any_segmentation_and_whitespace.
 Print Assumptions C36_decode_outcome_independent_of_segmentation.
 Print Assumptions C36_decode_update_write_bound.
 Print Assumptions C36_encode_update_within_promised_length.
-Print Assumptions C36_accepted_language_exact.
-Print Assumptions C36_strict_rejection_refuted.
-Print Assumptions C36_malformed_rejected_partial.
+Print Assumptions C36_malformed_rejected.
+Print Assumptions C36_noncanonical_input_refused.
 Print Assumptions C36_invalid_character_rejected.
+Print Assumptions C36_nettle_accepted_language_exact.
+Print Assumptions C36_nettle_strict_rejection_refuted.
+Print Assumptions C36_nettle_malformed_rejected_partial.
 Print Assumptions C36_basic_split_first_colon.
 Print Assumptions C36_basic_split_no_colon.
-Print Assumptions C36_basic_credentials_partial.
-Print Assumptions C36_basic_split_refuted_by_nul.
+Print Assumptions C36_basic_credentials.
+Print Assumptions C36_basic_nul_refused.
 Print Assumptions C36_nettle_tables_equal_bundled.
 Print Assumptions C36_header_constants_match_model.
